@@ -387,6 +387,30 @@ func runUnfoldedPolarity(p *Program, r *RuleResult) {
 			}
 		}
 	}
+	// pass 2b: a function that hands its own []Name parameter on to a slice sink unchanged
+	// (`helper(p, names...)`) is a slice sink itself; the obligation moves to its callers
+	forwards := map[ssa.CallInstruction]bool{}
+	for changed := true; changed; {
+		changed = false
+		for _, fn := range p.SrcFuncs {
+			for _, c := range p.callsIn(fn) {
+				sc := c.Common().StaticCallee()
+				pi, isSink := sliceSinks[sc]
+				if sc == nil || !isSink || pi >= len(c.Common().Args) {
+					continue
+				}
+				for i, prm := range fn.Params {
+					if c.Common().Args[pi] == ssa.Value(prm) {
+						forwards[c] = true
+						if _, have := sliceSinks[fn]; !have {
+							sliceSinks[fn] = i
+							changed = true
+						}
+					}
+				}
+			}
+		}
+	}
 	// pass 3: call sites of sinks
 	nSites, nArgs := 0, 0
 	var fns []*ssa.Function
@@ -420,7 +444,7 @@ func runUnfoldedPolarity(p *Program, r *RuleResult) {
 				continue
 			}
 			pi, isSink := sliceSinks[sc]
-			if !isSink {
+			if !isSink || forwards[c] {
 				continue
 			}
 			nSites++
